@@ -430,6 +430,17 @@ for (dep, cap, m, tiers) in ((1, 3, 2, Q), (1, 1, 2, Q), (1, 4, 0, Q), (1, 4, 1,
                   replay='fixed_builder', replay_const={'depth': dep, 'cap': cap, 'm': m},
                   covers=(['unsorted pushes', 'duplicate push'] if m >= 2 else []),
                   domain='BMOCBuilderFixedDepth depth %d, buffer capacity %d, %d pushes of symbolic cell numbers (any order, duplicates), symbolic flag, symbolic probe cell' % (dep, cap, m)))
+for (dep, m, tiers) in ((0, 4, Q), (1, 4, Q), (2, 4, T), (1, 3, T)):
+    B = 'nested::bmoc::'
+    us = dict(_bmoc_unwindset(1, 1, dep, 2))
+    us.update({B + 'BMOCBuilderFixedDepth::buff_to_bmoc#0': m + 1, B + 'BMOCBuilderFixedDepth::largest_lower_cell_sequence_len#0': m + 1,
+               B + 'BMOC::create_unsafe_copying#0': m + 1, B + 'verif_c15::k_fixed_buff#0': 6, B + 'verif_c15::k_fixed_buff#1': 6, 'verif_common::spec_scan#0': m + 8})
+    _c15.append(H('c15_buff_d%d_m%d' % (dep, m), 'k_fixed_buff(%d, %d);' % (dep, m), tiers=tiers, timeout=2400, mem_gb=12, unwind=m + 2, unwindset=us,
+                  stubs=_bmoc_stubs('verif_c15'),
+                  inputs=[('is_full', 'bool'), ('p0', 'u64'), ('p1', 'u64'), ('p2', 'u64'), ('p3', 'u64'), ('c', 'u64')],
+                  replay='fixed_builder', replay_const={'depth': dep, 'cap': 8, 'm': m},
+                  covers=['four siblings', 'consecutive cells that are not a complete parent'] if m == 4 else ['consecutive cells that are not a complete parent'],
+                  domain='BMOCBuilderFixedDepth::buff_to_bmoc at depth %d on every strictly increasing buffer of %d cells (the state after sort + dedup), symbolic flag, symbolic probe cell' % (dep, m)))
 PROPS['C15'] = dict(
     inject=[dict(host='src/nested/bmoc.rs', mod='verif_c15', parts=['props/c07.rs', 'kani/c07.rs', 'props/c09.rs', 'kani/c09.rs'])],
     harnesses=_c15,
@@ -603,7 +614,7 @@ for reg, rn in ((0, 'npc'), (1, 'eqr'), (2, 'spc')):
                           domain='proj: every double lon %s in [-25.2, 25.2], every lat of the %s region: range, sign%s' % ('< 0' if neg else '>= 0', rn, ', image facets' if image else '')))
         _c17.append(H('c17_proj_formula_' + sfx, 'k_c17_proj_formula(%d, %s);' % (reg, 'true' if neg else 'false'), tiers=Q, timeout=2400, mem_gb=6, unwind=3,
                       stubs=_LIBM + [('crate::pm1_offset_decompose', 'crate::verif_c17::stub_pm1_offset_decompose')], inputs=[('lon', 'f64'), ('lat', 'f64')], replay='c17_native',
-                      covers=['second turn'],
+                      covers=['second turn'] + (['polar product clause reached'] if reg != 1 else []),
                       domain='proj, %s region, lon %s: x, y are the Calabretta-Roukema expressions of (pm1, offset, lat) for ANY (pm1, offset) allowed by the decomposition contract' % (rn, '< 0' if neg else '>= 0')))
         for turn in range(4):
             _c17.append(H('c17_proj_ref_%s_t%d' % (sfx, turn), 'k_c17_proj_ref(%d, %s, %d);' % (reg, 'true' if neg else 'false', turn), tiers=X, timeout=3600, mem_gb=6, unwind=3,
@@ -687,7 +698,7 @@ PROPS['C06'] = dict(
 # ------------------------------------------------------------------------------------------- C11 (RING, any nside; plane cut)
 _PLANE_CUT = lambda mod: [('crate::proj', 'crate::ring::%s::stub_proj' % mod), ('crate::unproj', 'crate::ring::%s::stub_unproj' % mod)]
 import os as _os
-_C11_ROLE = _os.environ.get('VERIF_C11_ROLE', '0')   # 0 = complement of the role of the open finding F4; 255 = every image point
+_C11_ROLE = _os.environ.get('VERIF_C11_ROLE', '255')   # 255 = every image point (0 / 1 = outside / inside the role of the former finding F4)
 _c11 = []
 for ns in (1, 2, 3, 4, 5, 6, 7, 8, 13, 100, 1000003, (1 << 29) - 1, 1 << 29):
     small = ns <= 13
@@ -699,7 +710,7 @@ for ns in (1, 2, 3, 4, 5, 6, 7, 8, 13, 100, 1000003, (1 << 29) - 1, 1 << 29):
                           tiers=(Q if ns <= 2 else T), timeout=2400, mem_gb=8, unwind=3, stubs=_PLANE_CUT('verif_c11'),
                           inputs=[('x', 'f64'), ('y', 'f64')], replay='c11_pullback', replay_const={'nside': ns},
                           covers=['last base cell column', 'first base cell column'] if quad == 255 else ['east part of the column', 'west part of the column'],
-                          domain='nside %d: every double point of the HEALPix image with y in the %s band%s, farther than 2^-40 from the polar base-cell seams (open finding F4)' % (
+                          domain='nside %d: every double point of the HEALPix image with y in the %s band%s, polar base-cell borders included' % (
                               ns, bn, '' if quad == 255 else ' and x in [%d, %d%s' % (2 * quad, 2 * quad + 2, ']' if quad == 3 else ')'))))
     if small or ns == 100:
         _c11.append(H('c11_center_n%d' % ns, 'k_c11_center(%d);' % ns, tiers=tq, timeout=2400, mem_gb=8, unwind=3, stubs=_PLANE_CUT('verif_c11'),
@@ -708,9 +719,9 @@ for ns in (1, 2, 3, 4, 5, 6, 7, 8, 13, 100, 1000003, (1 << 29) - 1, 1 << 29):
     _c11.append(H('c11_order_n%d' % ns, 'k_c11_order(%d);' % ns, tiers=((Q if ns in (1, 2, 3) else T) if small else T), timeout=2400, mem_gb=8, unwind=3,
                   inputs=[('r', 'u64')], replay='c11_order', replay_const={'nside': ns}, covers=['last pair'],
                   domain='nside %d: every pair of consecutive cell numbers' % ns))
-_c11.append(H('c11_seam_witness_n2', 'k_c11_point(2, 1, 255, 255);', tiers=Q, timeout=1200, mem_gb=8, unwind=3, stubs=_PLANE_CUT('verif_c11'),
+_c11.append(H('c11_seam_n2', 'k_c11_point(2, 1, 255, 255);', tiers=Q, timeout=2400, mem_gb=8, unwind=3, stubs=_PLANE_CUT('verif_c11'),
               inputs=[('x', 'f64'), ('y', 'f64')], replay='c11_pullback', replay_const={'nside': 2}, covers=[],
-              domain='witness of the open finding F4 (expected to fail): nside 2, image points on / within 2^-40 of a polar base-cell seam'))
+              domain='nside 2, image points on / within 2^-40 of a polar base-cell border or cap-base corner (the role of the repaired finding F4) alone'))
 for w in (0, 1, 2, 3):
     _c11.append(H('c11_guard_%d' % w, 'k_c11_guard(3, %d);' % w, tiers=Q, timeout=600, mem_gb=6, should_panic=True, unwind=3, stubs=_LIBM,
                   inputs=[('h', 'u64'), ('lon', 'f64'), ('lat', 'f64')], replay='c11_guard', replay_const={'nside': 3, 'which': w},
@@ -736,28 +747,28 @@ _c03 = []
 for _d in range(30):
     tq = Q if _d in (0, 1, 2, 29) else T
     for part, pn in ((0, 'centre'), (1, 'offset'), (2, 'vertices')):
-        _c03.append(H('c03_%s_d%d' % (pn, _d), 'k_c03_cell(%d, %d);' % (_d, part), tiers=tq, timeout=2400, mem_gb=8, unwind=4, unwindset=_c03_us(_d), stubs=_PLANE_CUT_N('verif_c03'),
+        _c03.append(H('c03_%s_d%d' % (pn, _d), 'k_c03_cell(%d, %d);' % (_d, part), tiers=tq, timeout=2400, mem_gb=8, unwind=3, unwindset=_c03_us(_d), stubs=_PLANE_CUT_N('verif_c03'),
                       inputs=[('h', 'u64'), ('dxk', 'u32'), ('dyk', 'u32')], replay='c03_cell', replay_const={'depth': _d},
                       covers=['cell at the north pole', 'west half of base cell 4 (negative x before wrapping)'] if _d > 0 else ['cell at the north pole'],
                       domain='depth %d: every cell%s (plane cut): %s' % (_d, ', offsets k/1024 with k symbolic in 1..=1023' if part == 1 else '', pn)))
-    _c03.append(H('c03_path_d%d' % _d, 'k_c03_path(%d);' % _d, tiers=Q if _d in (0, 2, 29) else T, timeout=2400, mem_gb=10, unwind=4, unwindset=_c03_us(_d),
+    _c03.append(H('c03_path_d%d' % _d, 'k_c03_path(%d);' % _d, tiers=Q if _d in (0, 2, 29) else T, timeout=2400, mem_gb=10, unwind=3, unwindset=_c03_us(_d),
                   stubs=_PLANE_CUT_N('verif_c03'), inputs=[('h', 'u64'), ('t', 'usize'), ('cw', 'bool'), ('sk', 'u8')], replay='c03_cell',
                   replay_const={'depth': _d, 'dxk': 512, 'dyk': 512}, covers=['last grid point', 'first path point, clockwise'],
                   domain='depth %d: every cell, every point of the 12-point edge path (both directions, 4 starting vertices) and of the 3x3 grid' % _d))
     for band, bn in ((0, 'npc'), (1, 'eqr'), (2, 'spc')):
         for b in ((0, 1, 2, 3) if band == 0 else (8, 9, 10, 11) if band == 2 else range(12)):
-            _c03.append(H('c03_image_%s_b%d_d%d' % (bn, b, _d), 'k_c03_image(%d, %d, %d);' % (_d, band, b), tiers=Q if _d in (0, 1) else T, timeout=2400, mem_gb=10, unwind=4,
+            _c03.append(H('c03_image_%s_b%d_d%d' % (bn, b, _d), 'k_c03_image(%d, %d, %d);' % (_d, band, b), tiers=Q if _d in (0, 1) else T, timeout=2400, mem_gb=10, unwind=3,
                           unwindset=_c03_us(_d), stubs=_PLANE_CUT_N('verif_c03'), inputs=[('x', 'f64'), ('y', 'f64')], replay='c03_pullback', replay_const={'depth': _d},
                           covers=['a point of the band is mapped to the base cell', 'on a base cell corner / centre line'],
                           domain='depth %d: every double point of the HEALPix image (x in [0, 8]) with y in the %s band that hash_with_dxdy maps into base cell %d' % (_d, bn, b)))
         if band != 1:
             # complement class of a polar band (expected empty; no reachability witness required): makes the split exhaustive
-            _c03.append(H('c03_image_%s_other_d%d' % (bn, _d), 'k_c03_image(%d, %d, 255);' % (_d, band), tiers=Q if _d in (0, 1) else T, timeout=2400, mem_gb=10, unwind=4,
+            _c03.append(H('c03_image_%s_other_d%d' % (bn, _d), 'k_c03_image(%d, %d, 255);' % (_d, band), tiers=Q if _d in (0, 1) else T, timeout=2400, mem_gb=10, unwind=3,
                           unwindset=_c03_us(_d), stubs=_PLANE_CUT_N('verif_c03'), inputs=[('x', 'f64'), ('y', 'f64')], replay='c03_pullback', replay_const={'depth': _d},
                           covers=[], domain='depth %d: %s band, points mapped to a base cell outside the cap (expected: none)' % (_d, bn)))
 for _d in range(30):
     for band, bn in ((0, 'npc'), (1, 'eqr'), (2, 'spc')):
-        _c03.append(H('c03_range_%s_d%d' % (bn, _d), 'k_c03_range(%d, %d);' % (_d, band), tiers=Q if _d in (0, 1, 29) else T, timeout=1200, mem_gb=6, unwind=4,
+        _c03.append(H('c03_range_%s_d%d' % (bn, _d), 'k_c03_range(%d, %d);' % (_d, band), tiers=Q if _d in (0, 1, 29) else T, timeout=1200, mem_gb=6, unwind=3,
                       unwindset=_c03_us(_d), stubs=_PLANE_CUT_N('verif_c03'), inputs=[('x', 'f64'), ('y', 'f64')], replay='c03_pullback', replay_const={'depth': _d},
                       covers=['x = 4 (seam or base cell corner line)', 'x = 8'],
                       domain='depth %d: every double point of the HEALPix image (x in [0, 8]) with y in the %s band: cell number in range, offsets in [0, 1]' % (_d, bn)))
@@ -822,7 +833,7 @@ _KEEP_T = {
     'C10': r'_d(3|5|8|16|17|28)$|^c10_ringends_[ns]_(d26_k67108800|d29_k536870848|d29_k402653184)$',
     'C11': r'^c11_(center|order)_n(4|5|7|8|13|536870911|536870912)$|^c11_point_\w+_n(3|5)_q\d$',
     'C14': r'^c14_(internal|parts|dirs)_|^c14_(external|struct)_d0_dd1$|^c14_guard_0$',
-    'C15': r'^(?!c15_fixed_)|^c15_fixed_(d0_cap4_m4|d1_cap2_m2)$',
+    'C15': r'^(?!c15_fixed_)|^c15_fixed_(d1_cap2_m2)$',
     'C16': r'.',
     'C17': r'.',
     'C18': r'.',
